@@ -94,10 +94,22 @@ impl SwiftField for Field11R {
         // Parse optional input sequence number (6!n)
         let input_sequence_number =
             if remaining.len() >= 6 && remaining[..6].chars().all(|c| c.is_ascii_digit()) {
-                Some(remaining[..6].to_string())
+                let sequence = Some(remaining[..6].to_string());
+                remaining = &remaining[6..];
+                sequence
             } else {
                 None
             };
+
+        // Nothing may follow the last component
+        if !remaining.is_empty() {
+            return Err(ParseError::InvalidFormat {
+                message: format!(
+                    "Field 11R has unexpected content after the last component: '{}'",
+                    remaining
+                ),
+            });
+        }
 
         Ok(Field11R {
             message_type,
@@ -240,10 +252,22 @@ impl SwiftField for Field11S {
         // Parse optional input sequence number (6!n)
         let input_sequence_number =
             if remaining.len() >= 6 && remaining[..6].chars().all(|c| c.is_ascii_digit()) {
-                Some(remaining[..6].to_string())
+                let sequence = Some(remaining[..6].to_string());
+                remaining = &remaining[6..];
+                sequence
             } else {
                 None
             };
+
+        // Nothing may follow the last component
+        if !remaining.is_empty() {
+            return Err(ParseError::InvalidFormat {
+                message: format!(
+                    "Field 11S has unexpected content after the last component: '{}'",
+                    remaining
+                ),
+            });
+        }
 
         Ok(Field11S {
             message_type,
@@ -392,10 +416,10 @@ impl SwiftField for Field11 {
     where
         Self: Sized,
     {
-        // Field 11 requires at least 9 characters (3 for MT + 6 for date)
-        if input.len() < 9 {
+        // Field 11 is exactly 9 characters (3 for MT + 6 for date)
+        if input.len() != 9 {
             return Err(ParseError::InvalidFormat {
-                message: "Field 11 requires at least 9 characters (3 for MT + 6 for date)"
+                message: "Field 11 requires exactly 9 characters (3 for MT + 6 for date)"
                     .to_string(),
             });
         }
